@@ -26,6 +26,8 @@ func profile(name string) (lifes, forms, variants []int) {
 		return all, []int{kit.IdPlain, kit.IdGroup, kit.IdAs, kit.IdAsGroup, kit.IdAsNamed}, []int{0, 5, 7, 8, 12, 14, 16, 17}
 	case 4: // multi-output forms incl. those godi cannot construct today
 		return all, []int{kit.IdPlain, kit.IdMulti, kit.IdResObj, kit.IdResObj2, kit.IdMultiNamed, kit.IdMultiGroup}, []int{0, 1, 11}
+	case 7: // one interface type both as an unkeyed service and as the element type of a group, and consumers of the group
+		return all, []int{kit.IdPlain, kit.IdAs, kit.IdAsGroup}, []int{0, 8}
 	case 3: // initializers
 		return all, []int{kit.IdPlain, kit.IdVoid, kit.IdVoidErr, kit.IdNamed}, []int{0, 1, 3, 4, 11}
 	}
